@@ -7,6 +7,6 @@ mod table;
 #[cfg(test)]
 mod test;
 
-pub use self::decoder::{Decoder, DecoderError, NeedMore};
+pub use self::decoder::{Decoder, DecoderError};
 pub use self::encoder::Encoder;
 pub use self::header::{BytesStr, Header};
